@@ -66,7 +66,7 @@ def _initial_problem(out: str, famfile):
 
 def _violated(out: str):
     return re.findall(r"Invariant (\S+) is violated", out) + (
-        ["Terminates"] if "Temporal properties were violated" in out else [])
+        ["Terminates"] if re.search(r"Temporal propert(y|ies) .*violated", out) else [])
 
 
 def run_mc(prop: str, tier: str, seed: int):
